@@ -856,8 +856,10 @@ func (e *xstore) do(op string) {
 			}
 		}
 	case "cmix":
-		// one goroutine per item, started together: <id> = Push, t<id>=<name> = Tag, u=<name> = Untag.
-		// Every name is touched by one item only, so the final resolver state is determined.
+		// one goroutine per item, started together: <id> = Push, t<id>=<name> = Tag, u=<name> = Untag,
+		// x<id> = Delete.  Every name is touched by one item only and a deleted node is neither
+		// tagged nor untagged in the block, so the final resolver state is determined; what a
+		// Delete with AutoGC takes along depends on the interleaving and is read off the disk.
 		if e.ociSt == nil {
 			return
 		}
@@ -879,6 +881,10 @@ func (e *xstore) do(op string) {
 					}
 				case strings.HasPrefix(it, "u="):
 					errs[k] = st.Untag(ctx, it[2:])
+				case strings.HasPrefix(it, "x"):
+					if i, err := strconv.Atoi(it[1:]); err == nil && e.valid(i) {
+						errs[k] = st.Delete(ctx, e.u.g.Nodes[i].Desc)
+					}
 				default:
 					if i, err := strconv.Atoi(it); err == nil && e.valid(i) && !e.u.g.Nodes[i].Foreign() {
 						errs[k] = e.pushOne(i)
@@ -907,6 +913,11 @@ func (e *xstore) do(op string) {
 				} else if e.stored[i] {
 					e.fail("tag-error", fmt.Sprintf("concurrent Tag(%d,%s): %v", i, nm, err))
 				}
+			case strings.HasPrefix(it, "x"):
+				if err != nil {
+					run.Count("delete-error")
+				}
+				e.sawDelete = true
 			case strings.HasPrefix(it, "u="):
 				nm := it[2:]
 				i, had := e.tags[nm]
@@ -938,6 +949,10 @@ func (e *xstore) do(op string) {
 					e.fail("push-error", fmt.Sprintf("concurrent Push(%d): %v", i, err))
 				}
 			}
+		}
+		for _, v := range e.refreshStored() {
+			e.mops = append(e.mops, fmt.Sprintf("D%d", v), fmt.Sprintf("-%d", v))
+			e.sops = append(e.sops, fmt.Sprintf("X%d", v))
 		}
 	case "tag":
 		a, nm, _ := strings.Cut(arg, ":")
@@ -1538,6 +1553,9 @@ func genBurst(r *common.Rand, origin string) {
 	for i := 0; i < 1+r.Intn(3); i++ {
 		pre = append(pre, image(len(enc), -1))
 	}
+	// a manifest deleted inside some mixed blocks; never tagged or untagged
+	victim := image(len(enc), -1)
+	refs := append(append([]int(nil), pre...), victim)
 	nBurst := 16 + r.Intn(17)
 	var burst []int
 	for i := 0; i < nBurst; i++ {
@@ -1545,9 +1563,9 @@ func genBurst(r *common.Rand, origin string) {
 		case x < 6:
 			burst = append(burst, image(len(enc), -1))
 		case x < 8:
-			burst = append(burst, image(len(enc), common.Pick(r, pre))) // a referrer
+			burst = append(burst, image(len(enc), common.Pick(r, refs))) // a referrer
 		default:
-			burst = append(burst, index(len(enc), []int{common.Pick(r, pre), common.Pick(r, pre)}))
+			burst = append(burst, index(len(enc), []int{common.Pick(r, refs), common.Pick(r, pre)}))
 		}
 	}
 	g := dag.Decode(enc)
@@ -1560,7 +1578,7 @@ func genBurst(r *common.Rand, origin string) {
 	for _, l := range shared {
 		e.do(fmt.Sprintf("push:%d", l))
 	}
-	for _, m := range pre {
+	for _, m := range refs {
 		e.do(fmt.Sprintf("push:%d", m))
 	}
 	mixed := r.Chance(1, 3)
@@ -1578,6 +1596,10 @@ func genBurst(r *common.Rand, origin string) {
 		}
 		for k := 0; k < 2+r.Intn(4); k++ {
 			items = append(items, fmt.Sprintf("t%d=new%d", common.Pick(r, pre), k))
+		}
+		if r.Bool() {
+			run.Count("burst-with-delete")
+			items = append(items, fmt.Sprintf("x%d", victim))
 		}
 		common.Shuffle(r, items)
 		e.do("cmix:" + strings.Join(items, "|"))
@@ -1700,7 +1722,18 @@ func replay(path string) {
 			if err := json.Unmarshal([]byte(c["script"]), &rep.Script); err != nil {
 				panic(err)
 			}
-			replayStore(rep)
+			// a history with a concurrent block is schedule dependent: repeat it until it fails
+			// (or 60 times)
+			reps := 1
+			for _, op := range rep.Script {
+				if strings.HasPrefix(op, "cpush:") || strings.HasPrefix(op, "cmix:") {
+					reps = 60
+				}
+			}
+			before := run.OracleFails
+			for k := 0; k < reps && run.OracleFails == before; k++ {
+				replayStore(rep)
+			}
 		case "seed":
 			s, _ := strconv.ParseUint(c["seed"], 10, 64)
 			caseFromSeed(c["part"], s)
